@@ -568,9 +568,18 @@ SwapSummary(s, e, t) ==
 IsSingleSwapOK(s, e) ==
   SwapOK(s, e) /\ SwapKnown(s, e) /\ ~IsDouble(s, e.inDenom, e.outDenom)
 
-GhostInit == [steps |-> 0, created |-> 0, blk |-> <<>>, last |-> NoLast, gift |-> EmptyF]
+GhostInit == [steps |-> 0, created |-> 0, blk |-> <<>>, last |-> NoLast, gift |-> EmptyF,
+              reg |-> EmptyF, par |-> EmptyF]
+(* a history starts in state s: the pools it finds and the configured parameters *)
+GhostInitOf(s) == [GhostInit EXCEPT !.reg = s.pools, !.par = s.params]
 GhostStep(g, s, e, t) ==
-  [steps |-> g.steps + 1,
+  [\* reg: the registry ACCORDING TO THE HISTORY - every pool ever seen, with the liquidity denom and
+   \* the escrow it had when it first appeared; never rewritten, never forgotten, whatever the
+   \* module's own registry says later.  par: the parameters the history started with (no driver
+   \* changes them: a parameter change would be an event of its own and would update this ghost)
+   reg |-> [p \in DOMAIN g.reg \cup DOMAIN t.pools |-> IF p \in DOMAIN g.reg THEN g.reg[p] ELSE t.pools[p]],
+   par |-> g.par,
+   steps |-> g.steps + 1,
    created |-> g.created + Cardinality(DOMAIN t.pools \ DOMAIN s.pools),
    blk |-> IF e.name = "EndBlock" THEN <<>>
            ELSE IF IsSingleSwapOK(s, e) THEN Append(g.blk, SwapSummary(s, e, t))
@@ -593,6 +602,52 @@ Sandwich(g) ==
      IN /\ a.who = c.who /\ a.who # b.who
         /\ a.inD = b.inD /\ a.outD = b.outD
         /\ c.inD = a.outD /\ c.outD = a.inD
+
+-----------------------------------------------------------------------------
+(***************************************************************************)
+(* HISTORY TWINS (official clauses).  Every clause above finds "the pool's  *)
+(* escrow", "the pool's liquidity denom" and "the configured fee" in the    *)
+(* module's OWN bookkeeping as projected in the state (s.pools, s.params).  *)
+(* A defect that rewrites, drops or duplicates a registry entry, or touches *)
+(* the stored parameters, makes them judge the step by the corrupted entry: *)
+(* domain empty (C01_ShareValue over the pools still registered), both      *)
+(* sides equally wrong (C02_Frame allowing the cells of the WRONG escrow),  *)
+(* an exempted supply (C02_Supply).  The twins evaluate the SAME clause     *)
+(* text on the observed bank state (balances, supplies) with the registry   *)
+(* and the parameters ACCORDING TO THE HISTORY (ghosts reg, par): a pool is *)
+(* what it was when it first appeared, for ever.  gp / g: ghosts before /   *)
+(* after the step.  On a tree whose registry never changes an entry the     *)
+(* twins coincide with the originals.                                       *)
+(***************************************************************************)
+HV(s, g) == [s EXCEPT !.pools = g.reg, !.params = g.par]
+
+C01_ShareValueH(s, e, t, gp, g) == C01_ShareValue(HV(s, gp), e, HV(t, g))
+C01_LegRuleH(s, e, t, gp, g) == C01_LegRule(HV(s, gp), e, HV(t, g))
+C01_ExactInMaxH(s, e, t, gp, g) == C01_ExactInMax(HV(s, gp), e, HV(t, g))
+C01_ExactOutTightH(s, e, t, gp, g) == C01_ExactOutTight(HV(s, gp), e, HV(t, g))
+C02_SwapSenderH(s, e, t, gp, g) == C02_SwapSender(HV(s, gp), e, HV(t, g))
+C02_SwapRecipientH(s, e, t, gp, g) == C02_SwapRecipient(HV(s, gp), e, HV(t, g))
+C02_BoundsH(s, e, t, gp, g) == C02_Bounds(HV(s, gp), e, HV(t, g))
+C02_FrameH(s, e, t, gp, g) == C02_Frame(HV(s, gp), e, HV(t, g))
+C02_AddTakesAtMostH(s, e, t, gp, g) == C02_AddTakesAtMost(HV(s, gp), e, HV(t, g))
+C02_RemoveGivesAtLeastH(s, e, t, gp, g) == C02_RemoveGivesAtLeast(HV(s, gp), e, HV(t, g))
+C02_SupplyH(s, e, t, gp, g) == C02_Supply(HV(s, gp), e, HV(t, g))
+
+(* C01 / C02 speak of "its two reserves", "the outstanding liquidity-token supply" of every pool
+   and of liquidity tokens "minted only against deposits": every pool has a liquidity denom and an
+   escrow OF ITS OWN - no two pools that ever existed share one (a pool opened with the sequence
+   number of an earlier one would mint that pool's shares against deposits into that pool's
+   escrow), and an accepted message opens at most the one pool it names. *)
+C02_PoolFresh(s, e, t, gp, g) ==
+  /\ \A p, q \in DOMAIN g.reg :
+       (p # q) => (g.reg[p].lpt # g.reg[q].lpt /\ g.reg[p].esc # g.reg[q].esc)
+  /\ (DOMAIN g.reg # DOMAIN gp.reg) =>
+       /\ e.name = "AddLiquidity" /\ e.ok
+       /\ DOMAIN g.reg \ DOMAIN gp.reg = {e.denom}
+
+(* the module's registry is the history's (diagnostic: a registry entry that is rewritten or lost
+   breaks no listed property by itself; what it leads to is judged by the twins above) *)
+X02_RegistryStable(t, g) == t.pools = g.reg /\ t.params = g.par
 
 -----------------------------------------------------------------------------
 (***************************************************************************)
@@ -687,7 +742,7 @@ Init0 ==
    bal |-> [a \in Accts |-> [d \in Denoms |-> IF a \in Users THEN InitOf(d) ELSE 0]],
    supply |-> [d \in Denoms |-> Cardinality(Users) * InitOf(d)]]
 
-Init == st = Init0 /\ ev = NoEv /\ gh = GhostInit /\ hist = <<>>
+Init == st = Init0 /\ ev = NoEv /\ gh = GhostInitOf(Init0) /\ hist = <<>>
 
 Step(e) ==
   LET r == Apply(st, e)
@@ -873,6 +928,12 @@ Act_C02_AddTakesAtMost == [][C02_AddTakesAtMost(st, ev', st')]_vars
 Act_C02_RemoveGivesAtLeast == [][C02_RemoveGivesAtLeast(st, ev', st')]_vars
 Act_C02_Supply == [][C02_Supply(st, ev', st')]_vars
 Act_Rejected_NoEffect == [][Rejected_NoEffect(st, ev', st')]_vars
+
+(* history twins: in the model the registry is never rewritten, so one cheap action property
+   (the module's registry and parameters ARE the history's) makes every twin equal to its original;
+   C02_PoolFresh is checked as it stands *)
+Act_X02_RegistryStable == [][X02_RegistryStable(st', gh')]_vars
+Act_C02_PoolFresh == [][C02_PoolFresh(st, ev', st', gh, gh')]_vars
 
 (* diagnostic clauses that the design satisfies (X01_PoolNotWedged,
    X01_AddNeverLockedOut and X01_NoPanic do not: the model reaches them) *)
